@@ -5120,6 +5120,27 @@ class PyCdlib:
         if iso_path is None and joliet_path is None and udf_path is None:
             raise pycdlibexception.PyCdlibInvalidInput('Either iso_path or joliet_path must be passed')
 
+        # Make sure that the directory can be removed from every namespace
+        # before it is removed from the first one.
+        if joliet_path is not None:
+            joliet_check = self._find_joliet_record(self._normalize_joliet_path(joliet_path))
+            if not joliet_check.is_dir():
+                raise pycdlibexception.PyCdlibInvalidInput('Cannot remove a file with rm_directory (try rm_file instead)')
+            if len(joliet_check.children) > 2:
+                raise pycdlibexception.PyCdlibInvalidInput('Directory must be empty to use rm_directory')
+            if joliet_check.is_root:
+                raise pycdlibexception.PyCdlibInvalidInput('Cannot remove base directory')
+        if udf_path is not None:
+            if self.udf_root is None:
+                raise pycdlibexception.PyCdlibInvalidInput('Can only specify a UDF path for a UDF ISO')
+            if utils.normpath(udf_path) == b'/':
+                raise pycdlibexception.PyCdlibInvalidInput('Cannot remove base directory')
+            (udf_ident_check, udf_entry_check) = self._find_udf_record(utils.normpath(udf_path))
+            if udf_entry_check is None or not udf_entry_check.is_dir():
+                raise pycdlibexception.PyCdlibInvalidInput('Cannot remove a file with rm_directory (try rm_file instead)')
+            if len(udf_entry_check.fi_descs) > 1:
+                raise pycdlibexception.PyCdlibInvalidInput('Directory must be empty to use rm_directory')
+
         num_bytes_to_remove = 0
 
         if iso_path is not None:
